@@ -310,9 +310,13 @@ def mat_to_tt(ob, d, src):
     for k in range(d):
         c, t = cores[k], ttv[k]
         all_eq(ob, 'core%d_shape' % k, c.shape, [to_int(R[k]), M[k], N[k], to_int(R[k + 1])])
-        if c.ndim == 4 and len(t.axes) == 3 and len(t.axes[1].factors) == 2:
+        if c.ndim == 4 and len(t.axes) == 3:
             ci = H.fresh_axis_index(ex, c)
-            ob.prove_eq('core%d_uninterleave' % k, c.at(ci), t.at([ci[0], (ci[1][0], ci[2][0]), ci[3]]))
+            if len(t.axes[1].factors) == 2:
+                mid = (ci[1][0], ci[2][0])
+            else:
+                mid = ci[1][0] * N[k] + ci[2][0]        # flat index (unit factors were absorbed)
+            ob.prove_eq('core%d_uninterleave' % k, c.at(ci), t.at([ci[0], mid, ci[3]]))
         else:
             ob.fail('core%d_uninterleave' % k, 'value', 'unexpected structure: core ndim %d, TT-SVD core axes %s' % (c.ndim, t.axes))
     check_ttsvd(ob, B, ttv, R, [m * n for m, n in zip(M, N)], d, F0, eps, lambda k: rmax)
